@@ -33,6 +33,10 @@ pub(crate) struct Batch {
 	// moved on to a newer segment before the batch is applied.
 	pub(crate) logged_in_wal: u64,
 	pub(crate) logged_with_sync: bool,
+	// Skiplist tower height of every entry, drawn when the batch is logged (not
+	// serialized; empty = drawn at insert time). Fixing the heights up front
+	// makes the memtable space the batch needs known exactly.
+	pub(crate) heights: Vec<u8>,
 }
 
 impl Default for Batch {
@@ -51,6 +55,7 @@ impl Batch {
 			size: 0,
 			logged_in_wal: 0,
 			logged_with_sync: false,
+			heights: Vec::new(),
 		}
 	}
 
@@ -297,6 +302,7 @@ impl Batch {
 			size: 0, // Decoded batches don't track size
 			logged_in_wal: 0,
 			logged_with_sync: false,
+			heights: Vec::new(),
 		})
 	}
 }
